@@ -202,3 +202,27 @@ func badGoTempl(r *rand.Rand, pkg string) string {
 		return "package " + pkg + "\n\ntempl A(s string) {\n\tif s == {\n\t\t<p>x</p>\n\t}\n}\n"
 	}
 }
+
+// badGoLegacyTempl parses, carries a parser DIAGNOSTIC (deprecated `{! x() }` call
+// syntax, the only diagnostic that exists) and its generated code is not valid Go.
+func badGoLegacyTempl(r *rand.Rand, pkg string) string {
+	head := "package " + pkg + "\n\ntempl C0() {\n\t<i>x</i>\n}\n\n"
+	switch r.Intn(3) {
+	case 0:
+		return head + "templ Broken(a: string) {\n\t{! C0() }\n}\n"
+	case 1:
+		return "package " + pkg + "\n\nfunc broken( {\n\ntempl C0() {\n\t<i>x</i>\n}\n\ntempl L() {\n\t<p>a</p>\n\t{! C0() }\n}\n"
+	default:
+		return head + "templ L(s string) {\n\t{! C0() }\n\tif s == {\n\t\t<p>x</p>\n\t}\n}\n"
+	}
+}
+
+// legacyOnlyTempl: diagnostic only; generates fine (benign control: warning, exit 0, sibling written).
+func legacyOnlyTempl(pkg string, n int) string {
+	return fmt.Sprintf("package %s\n\ntempl C0() {\n\t<i>x%d</i>\n}\n\ntempl Legacy() {\n\t<div>\n\t\t{! C0() }\n\t</div>\n}\n", pkg, n)
+}
+
+// plainGoodTempl: no diagnostic, generates fine.
+func plainGoodTempl(pkg string, n int) string {
+	return fmt.Sprintf("package %s\n\ntempl P(s string) {\n\t<p>%d { s }</p>\n}\n", pkg, n)
+}
